@@ -63,7 +63,7 @@ def run_cache_rule(ctx, ck, only=None, rule='R-CACHE.owner-only'):
         key = s.key
         if only is not None and key not in only:
             continue
-        if key in NOT_A_CACHE:
+        if is_registration_idiom(s):
             continue
         c = seen.get(key, 0)
         seen[key] = c + 1
@@ -79,6 +79,24 @@ def run_cache_rule(ctx, ck, only=None, rule='R-CACHE.owner-only'):
                   'a local bound to the cached value is updated in place (%s): the cache is corrupted for '
                   'the next request' % norm(mut[0])[:50] if mut else 'cached value is not updated in place')
     return sites, n
+
+
+def is_registration_idiom(site):
+    """`if o.n is None: o.n = len(X); X.append(o)`: numbering an object when it is first added to a
+    list (a registration index), not a cached computation"""
+    if site.kind != 'attr-none' or site.guard is None:
+        return False
+    v = site.value
+    if not (isinstance(v, ast.Call) and isinstance(v.func, ast.Name) and v.func.id == 'len' and len(v.args) == 1):
+        return False
+    lst = norm(v.args[0])
+    body = site.guard.body
+    for st in body:
+        if isinstance(st, ast.Expr) and isinstance(st.value, ast.Call) and \
+           isinstance(st.value.func, ast.Attribute) and st.value.func.attr == 'append' and \
+           norm(st.value.func.value) == lst and [norm(a) for a in st.value.args] == [site.owner]:
+            return True
+    return False
 
 
 def is_set_typed(prog, expr, env, f):
